@@ -54,12 +54,18 @@ package ledger
 // V5/V6/V7 producer files, files larger than one chunk per table (BalancesPerCatchpointFileChunk
 // = 512 accounts), the network/tar layer (ledgerFetcher), authenticity of the blocks (C30).
 //
-// Mutants (bin/mut C16 ...):
+// Mutants (bin/mut C16 ...), quick tier:
 //   M1 ledgercore/catchpointlabel.go: totals left out of the label buffer (producer and
 //      verifier consistently)                                                 => DETECTED
-//   M2 catchupaccessor.go BuildMerkleTrie ignoring duplicate hashes            => DETECTED
-//   M3 (own) catchupaccessor.go: online-accounts hash computed but a constant used in the
-//      label check (VerifyCatchpoint passes &spVerificationHash for the online hash)  => see report
+//      (header totals +1 is accepted and adopted: 56 violations)
+//   M2 catchupaccessor.go BuildMerkleTrie ignoring duplicate hashes ("if false && !added")
+//      => DETECTED (a KV record copied with shifted boundary is then adopted as an extra box)
+//   M3 (own) ledger/encoded/recordsV6.go: OnlineRoundParamsRecordV6.ToBeHashed ignores Data
+//      (label no longer covers online supply / rewards level of the history rows) => DETECTED
+//   M3' (tried first) OnlineAccountRecordV6.ToBeHashed ignoring VoteLastValid => MISSED, because
+//      it is an equivalent change: the staging iterator cross-checks the row's votelastvalid
+//      column against the decoded data ("decoded voteLastValid ... does not match row"), so the
+//      tampered file is still rejected in VerifyCatchpoint. Replaced by M3.
 
 import (
 	"context"
@@ -1017,6 +1023,9 @@ func TestVerif_C16(t *testing.T) {
 		}
 		var harnessErr atomic.Value
 		r.ParallelFor(len(tg.muts), func(i int) {
+			if r.OutOfTime() {
+				return
+			}
 			m := &tg.muts[i]
 			f, err := c14Decode(tg.secs)
 			if err != nil {
